@@ -10,7 +10,8 @@ SPEC = {
         "AM.Calendar.weekday_correct", "AM.Calendar.weekday_range", "AM.Calendar.weekday_epoch", "AM.Calendar.epoch_anchor",
         # ContainsTime
         "AM.TimeInterval.clamp_is_intersection", "AM.TimeInterval.clamp_alone_is_wrong", "AM.TimeInterval.clamp_spec",
-        "AM.TimeInterval.containsClock_iff", "AM.TimeInterval.contains_iff_spec", "AM.TimeInterval.containsTime_iff_spec",
+        "AM.TimeInterval.containsClock_iff", "AM.TimeInterval.containsClock_iff_partial", "AM.TimeInterval.pinned_month_length_counterexample",
+        "AM.TimeInterval.contains_iff_spec", "AM.TimeInterval.containsTime_iff_spec",
         "AM.TimeInterval.specB_iff", "AM.TimeInterval.clockOf_valid",
         "AM.TimeInterval.empty_field_rejects", "AM.TimeInterval.absent_fields_accept",
         # Mutes and the stages
